@@ -216,6 +216,11 @@ func GenUniverse(t *rapid.T, cfg UniverseCfg) *Universe {
 	if !cfg.NoFiles {
 		nf := rapid.IntRange(0, 3).Draw(t, "nFileTypes")
 		u.FileTypes = append(u.FileTypes, fileTypePool[:nf]...)
+		// file type names may be dotted (filetype tar.gz;): one of them, now
+		// and then
+		if nf > 0 && rapid.IntRange(0, 2).Draw(t, "dottedFileType") == 0 {
+			u.FileTypes[nf-1] = rapid.SampledFrom([]string{"tar.gz", "bam.bai", "a.b.c"}).Draw(t, "dottedName")
+		}
 	}
 	if cfg.MaxFields == 0 {
 		cfg.MaxFields = 4
